@@ -41,6 +41,10 @@ type Script struct {
 	Events []Event `json:"events,omitempty"`
 	// MaxChunk > 0 cuts every fault-free read to at most MaxChunk bytes.
 	MaxChunk int `json:"max_chunk,omitempty"`
+	// Playback, when non-nil, replaces the script: the device serves exactly
+	// these reads in order (used to re-run one task alone on the bytes and
+	// failures it received in a concurrent run).
+	Playback []Rec `json:"-"`
 }
 
 // Rec is one served read.
@@ -63,6 +67,8 @@ type Device struct {
 	Yield func()     // scheduling point before each read is served
 	Fired map[string]int
 	empty map[int]int // consecutive empty reads per task
+	pb    int
+	pbOff int
 }
 
 // NewDevice returns a device at stream position 0.
@@ -81,10 +87,32 @@ func errOf(name string) error {
 	}
 }
 
+func (d *Device) playback(p []byte) (int, error) {
+	task := d.Cur()
+	if d.pb >= len(d.S.Playback) {
+		d.Log = append(d.Log, Rec{Task: task, Want: len(p), Err: io.EOF})
+		return 0, io.EOF
+	}
+	rec := &d.S.Playback[d.pb]
+	n := copy(p, rec.Data[d.pbOff:])
+	d.pbOff += n
+	var err error
+	if d.pbOff >= len(rec.Data) {
+		err = rec.Err
+		d.pb++
+		d.pbOff = 0
+	}
+	d.Log = append(d.Log, Rec{Task: task, Want: len(p), N: n, Err: err, Data: append([]byte(nil), p[:n]...)})
+	return n, err
+}
+
 // Read serves the script.
 func (d *Device) Read(p []byte) (int, error) {
 	if d.Yield != nil {
 		d.Yield()
+	}
+	if d.S.Playback != nil {
+		return d.playback(p)
 	}
 	task := d.Cur()
 	want := len(p)
